@@ -69,11 +69,16 @@ def gen_types(rng, tg):
     mem = [P, Q, R]
     rng.shuffle(mem)
     U = {"k": "ur", "n": tg.name("U"), "m": mem[: rng.randint(1, 3)]}
+    # a union class derived from U that declares the same members in another order
+    Us = {"k": "ur", "n": tg.name("Us"), "m": list(reversed(U["m"])), "base": U["n"]} if len(U["m"]) > 1 else None
     pool = [("rp", {"k": "ref", "to": P}), ("rq", {"k": "ref", "to": Q}), ("u", U), ("rr", {"k": "ref", "to": R}),
             ("arp", {"k": "ar", "n": tg.name("AR"), "it": {"k": "ref", "to": P}, "dims": [rng.choice([2, None])], "ord": [0]}),
             ("au", {"k": "ar", "n": tg.name("AU"), "it": U, "dims": [rng.choice([2, None])], "ord": [0]}),
             ("k", sc("Int64")), ("name", {"k": "str"}),
             ("m", {"k": "ar", "n": tg.name("M"), "it": {"k": "ref", "to": Q}, "dims": [2, None], "ord": [1, 0]})]
+    if Us is not None:
+        pool.append(("us", Us))
+        pool.append(("u2", U))  # the parent union is in use as well
     holders = []
     for _ in range(2):
         r = rng.random()
